@@ -112,11 +112,26 @@ func c09Swap(r CompareRelation) CompareRelation {
 // paths within the bound and every map iteration order.
 //
 //gosym:maxpaths=200000
+//gosym:maxpaths.thorough=3000000
+//gosym:minutes.thorough=40
+//gosym:replay_repeat=60
 func H_C09_compare() {
 	maxElems, nkeys := 2, 2
 	if symTier() > 0 {
 		maxElems, nkeys = 2, 3
 	}
+	c09Compare(maxElems, nkeys)
+}
+
+// H_C09_compare3: single-element paths (or empty) with three key names.
+//
+//gosym:maxpaths=200000
+//gosym:replay_repeat=60
+func H_C09_compare3() {
+	c09Compare(1, 3)
+}
+
+func c09Compare(maxElems, nkeys int) {
 	a := c09Path("a", maxElems, nkeys)
 	b := c09Path("b", maxElems, nkeys)
 	for _, e := range a.Elem {
@@ -130,4 +145,212 @@ func H_C09_compare() {
 	symReach("compared")
 	symAssert(got == want, "ComparePaths differs from the set relation")
 	symAssert(ComparePaths(b, a) == c09Swap(got), "swap law")
+}
+
+// c09ConcretePath: a wildcard-free path whose elements carry every key.
+func c09ConcretePath(tag string, maxElems, nkeys int) *gpb.Path {
+	n := symChoose(tag+".len", maxElems+1)
+	p := &gpb.Path{}
+	for i := 0; i < n; i++ {
+		e := &gpb.PathElem{Name: symStringN(fmt.Sprintf("%s.e%d.name", tag, i), 1), Key: map[string]string{}}
+		symAssume(e.Name != "*")
+		for k := 0; k < nkeys; k++ {
+			v := symStringN(fmt.Sprintf("%s.e%d.val%d", tag, i, k), 1)
+			symAssume(v != "*")
+			e.Key[c09KeyNames[k]] = v
+		}
+		p.Elem = append(p.Elem, e)
+	}
+	return p
+}
+
+var c09Origins = []string{"", "openconfig", "other"}
+
+// H_C09_query: for a wildcard-free path p, PathMatchesQuery(p, q) holds exactly when
+// q's path set contains p's (q Equal or Superset of p), with "*" element names in q
+// acting as wildcards and unset origin matching "openconfig".
+//
+//gosym:maxpaths=200000
+//gosym:replay_repeat=60
+func H_C09_query() {
+	p := c09ConcretePath("p", 2, 2)
+	q := c09Path("q", 2, 2)
+	p.Origin = c09Origins[symChoose("p.origin", 3)]
+	q.Origin = c09Origins[symChoose("q.origin", 3)]
+	for _, e := range q.Elem {
+		symMapOrder(e.Key)
+	}
+	got := PathMatchesQuery(p, q)
+	// reference
+	want := len(q.Elem) <= len(p.Elem)
+	originOK := p.Origin == q.Origin || (p.Origin == "" && q.Origin == "openconfig") || (p.Origin == "openconfig" && q.Origin == "")
+	if !originOK {
+		want = false
+	}
+	if want {
+		for i, qe := range q.Elem {
+			pe := p.Elem[i]
+			if qe.Name != "*" && qe.Name != pe.Name {
+				want = false
+				break
+			}
+			for k := 0; k < 2; k++ {
+				qv, ok := qe.Key[c09KeyNames[k]]
+				if ok && qv != "*" && qv != pe.Key[c09KeyNames[k]] {
+					want = false
+				}
+			}
+		}
+	}
+	symReach("queried")
+	symAssert(got == want, "PathMatchesQuery differs from query-contains-path")
+}
+
+// H_C09_prefix: PathMatchesPathElemPrefix / TrimGNMIPathElemPrefix / PathMatchesPrefix /
+// PathPartiallyMatchesPrefix agree with element-wise prefix semantics.
+//
+//gosym:maxpaths=200000
+func H_C09_prefix() {
+	path := c09Path("p", 2, 1)
+	pfx := c09Path("x", 2, 1)
+	path.Origin = c09Origins[symChoose("p.origin", 2)]
+	pfx.Origin = c09Origins[symChoose("x.origin", 2)]
+	isPrefix := len(pfx.Elem) <= len(path.Elem) && path.Origin == pfx.Origin
+	if isPrefix {
+		for i := range pfx.Elem {
+			if !c09ElemEq(pfx.Elem[i], path.Elem[i]) {
+				isPrefix = false
+				break
+			}
+		}
+	}
+	symReach("prefix")
+	symAssert(PathMatchesPathElemPrefix(path, pfx) == isPrefix, "PathMatchesPathElemPrefix differs from element-wise prefix")
+	tr := TrimGNMIPathElemPrefix(path, pfx)
+	if isPrefix {
+		symAssert(len(tr.Elem) == len(path.Elem)-len(pfx.Elem), "TrimGNMIPathElemPrefix length")
+		for i := range tr.Elem {
+			symAssert(c09ElemEq(tr.Elem[i], path.Elem[len(pfx.Elem)+i]), "TrimGNMIPathElemPrefix element")
+		}
+		symAssert(len(path.Elem) == symChooseLen(path), "TrimGNMIPathElemPrefix must not modify its input")
+	} else {
+		symAssert(tr == path, "TrimGNMIPathElemPrefix must return the path unchanged when the prefix does not match")
+	}
+	// string-slice prefixes compare names only
+	var names []string
+	for _, e := range pfx.Elem {
+		names = append(names, e.Name)
+	}
+	namePrefix := len(names) <= len(path.Elem)
+	partial := true
+	for i := range names {
+		if i < len(path.Elem) && names[i] != path.Elem[i].Name {
+			namePrefix = false
+			partial = false
+		}
+	}
+	symAssert(PathMatchesPrefix(path, names) == namePrefix, "PathMatchesPrefix differs from name prefix")
+	symAssert(PathPartiallyMatchesPrefix(path, names) == partial, "PathPartiallyMatchesPrefix differs from partial name prefix")
+	t2 := TrimGNMIPathPrefix(path, names)
+	if namePrefix {
+		symAssert(len(t2.Elem) == len(path.Elem)-len(names), "TrimGNMIPathPrefix length")
+	} else {
+		symAssert(t2 == path, "TrimGNMIPathPrefix must return the path unchanged")
+	}
+}
+
+func symChooseLen(p *gpb.Path) int { return len(p.Elem) }
+
+func c09ElemEq(a, b *gpb.PathElem) bool {
+	if a.Name != b.Name || len(a.Key) != len(b.Key) {
+		return false
+	}
+	for k, v := range a.Key {
+		if w, ok := b.Key[k]; !ok || v != w {
+			return false
+		}
+	}
+	return true
+}
+
+// c09Spare gives the Elem slice of p spare capacity (0..2 extra slots), as a slice
+// built by append has.
+func c09Spare(tag string, p *gpb.Path) {
+	extra := symChoose(tag+".spare", 3)
+	s := make([]*gpb.PathElem, len(p.Elem), len(p.Elem)+extra)
+	copy(s, p.Elem)
+	p.Elem = s
+}
+
+// H_C09_join: JoinPaths(prefix, suffix) is the concatenation, Trim inverts it, the
+// inputs are unchanged, and a second join on the same prefix does not disturb the
+// result of the first (the prefix slice may have spare capacity).
+//
+//gosym:maxpaths=200000
+func H_C09_join() {
+	pfx := c09Path("x", 2, 1)
+	s1 := c09Path("s", 2, 1)
+	s2 := c09Path("t", 1, 1)
+	c09Spare("x", pfx)
+	pfx.Origin = c09Origins[symChoose("x.origin", 3)]
+	s1.Origin = c09Origins[symChoose("s.origin", 3)]
+	nPfx := len(pfx.Elem)
+	j1, err := JoinPaths(pfx, s1)
+	conflict := pfx.Origin != "" && s1.Origin != "" && pfx.Origin != s1.Origin
+	symReach("joined")
+	symAssert((err != nil) == conflict, "JoinPaths errors exactly on conflicting origins")
+	if err != nil {
+		return
+	}
+	wantOrigin := pfx.Origin
+	if s1.Origin != "" {
+		wantOrigin = s1.Origin
+	}
+	symAssert(j1.Origin == wantOrigin, "JoinPaths origin")
+	j2, _ := JoinPaths(pfx, s2)
+	symAssert(j2 != nil, "second join")
+	symAssert(len(pfx.Elem) == nPfx, "JoinPaths must not modify the prefix")
+	symAssert(len(j1.Elem) == nPfx+len(s1.Elem), "JoinPaths length")
+	for i := range j1.Elem {
+		if i < nPfx {
+			symAssert(j1.Elem[i] == pfx.Elem[i], "JoinPaths prefix element")
+		} else {
+			symAssert(j1.Elem[i] == s1.Elem[i-nPfx], "JoinPaths suffix element changed (by a later join on the same prefix?)")
+		}
+	}
+}
+
+// H_C09_findprefix: FindPathElemPrefix returns the longest common element prefix.
+//
+//gosym:maxpaths=200000
+func H_C09_findprefix() {
+	a := c09Path("a", 2, 1)
+	b := c09Path("b", 2, 1)
+	c := c09Path("c", 2, 1)
+	n := 2 + symChoose("npaths", 2)
+	paths := []*gpb.Path{a, b, c}[:n]
+	got := FindPathElemPrefix(paths)
+	want := 0
+	for {
+		ok := true
+		for _, p := range paths {
+			if want >= len(p.Elem) || !c09ElemEq(p.Elem[want], a.Elem[want]) {
+				ok = false
+				break
+			}
+		}
+		if !ok {
+			break
+		}
+		want++
+	}
+	symReach("found")
+	if want == 0 {
+		symAssert(len(got.GetElem()) == 0, "FindPathElemPrefix must be empty when there is no common prefix")
+		return
+	}
+	symAssert(len(got.GetElem()) == want, "FindPathElemPrefix is not the longest common prefix")
+	for i := 0; i < want; i++ {
+		symAssert(c09ElemEq(got.Elem[i], a.Elem[i]), "FindPathElemPrefix element")
+	}
 }
